@@ -7,7 +7,8 @@ SPEC = {
         "C13_slice_range_terminates", "C13_unguarded_slicing_diverges", "C13_query_slices_total",
         "C13_slices_partition_grid", "C13_per_slice_fold_is_runs", "C13_overlaps_aligned",
         "C13_overlaps_not_symmetric", "C13_merge_computes_components", "C13_sliced_eq_unsliced",
-        "C13_arrival_order_irrelevant", "C13_series_independent", "C13_nonvacuous"]},
+        "C13_arrival_order_irrelevant", "C13_series_independent", "C13_sliced_eq_unsliced_all_series", "C13_sliced_eq_unsliced_decoded",
+        "C13_nonvacuous", "C13_nonvacuous_multi"]},
     "harness_args": lambda tier: ["C13", "--n", 300 if tier == "quick" else 8000],
     "search_args": lambda tier: ["C13", "--n", 600],
     "level": "proof",
@@ -23,14 +24,20 @@ SPEC = {
         "ns offsets around every threshold) and compared with the model by coqc; the real Prometheus.RangeQuery runs end to end "
         "against an in-process fake server (presence model, random per-slice delays) and its requests/results are compared "
         "with query_slices and with the reference runs",
-        "harness: generators, the fake server (query_range over a presence model with Prometheus' millisecond parsing), the "
-        "reference runs in Go, the watchdog that turns a non-terminating slicing loop into a reported input",
+        "harness: generators (incl. a 12-label-set series vocabulary with nested / overlapping / disjoint / empty label-name sets, "
+        "series present during whole slices only, minimal two-slice configurations), the fake server (query_range over a presence "
+        "model with Prometheus' millisecond parsing, series order permuted per response), the reference runs in Go, the label / "
+        "fingerprint / step checks of the oracle, the watchdog that turns a non-terminating slicing loop into a reported input",
+        "Model/RangeStream.v (reused decoder variable, json.Unmarshal-into-map semantics, reset) is hand-written and tied only end to "
+        "end (the decoded labels of every result range are compared with the served label sets); the `current` streaming library and "
+        "encoding/json are trusted to behave as json.Unmarshal into the reused variable",
         "server model: a Prometheus-compatible server answers query_range(start,end,step) with the samples at start+k*step <= end",
     ],
     "assumptions": [
         "step >= 1s and step <= maxInt64-2h (pint parses lookbackStep/step with model.ParseDuration; smaller steps are outside the theorem)",
-        "Fingerprint (labels.Hash) identifies a series: distinct series have distinct fingerprints (C13_series_independent is stated "
-        "per fingerprint)",
+        "Fingerprint (labels.Hash) identifies a series: distinct series have distinct fingerprints (premise NoDup of "
+        "C13_series_independent / C13_sliced_eq_unsliced_all_series / C13_sliced_eq_unsliced_decoded; the harness checks it for its "
+        "vocabulary)",
         "the wire format (formatTime prints float64 seconds, the server keeps milliseconds) is identity on the instants the theorem "
         "speaks about; the harness generates start/step on whole milliseconds and keeps `end` 0.1ms away from half-milliseconds",
     ],
@@ -46,8 +53,11 @@ MANIFEST = {
             "presence patterns and ALL arrival orders of the slice responses: C13_sliced_eq_unsliced - per-slice folding "
             "(AppendSampleToRanges, ExpandRangesEnd), concatenation in any permutation, MergeRanges (fuelled fixpoint, all 9 Overlaps "
             "cases) and the final sort yield exactly the maximal runs of present points of ONE unsliced evaluation on the same step "
-            "grid (so runs merge across slice boundaries, one missing sample is a gap, order is irrelevant); C13_series_independent "
-            "lifts it to several series; C13_slices_partition_grid - the slices' grids are disjoint, on one step grid, and cover "
+            "grid (so runs merge across slice boundaries, one missing sample is a gap, order is irrelevant); "
+            "C13_sliced_eq_unsliced_all_series states it for ANY FINITE SET of series with distinct fingerprints, every response listing "
+            "its series in an order of its own: one result whose part under each fingerprint is exactly that series' unsliced runs and "
+            "which contains nothing else; C13_sliced_eq_unsliced_decoded starts from the streaming decoder (one reused variable, reset "
+            "after every element; hash only assumed injective on the served label sets); C13_slices_partition_grid - the slices' grids are disjoint, on one step grid, and cover "
             "[first slice start, end]; C13_slice_range_terminates / C13_unguarded_slicing_diverges / C13_query_slices_total - "
             "sliceRange terminates iff the slice size is positive (step > 4h made it loop forever before fix 43069bd) and the "
             "guarded RangeQuery bookkeeping is total; the supporting links (per-slice fold = runs, Overlaps on aligned ranges = "
